@@ -116,7 +116,10 @@ def load_dir(d):
         ty_aliases = canon.apply_type_aliases(data, role)
         aliases = canon.apply(data, role)
         fn_aliases = canon.apply_fn_aliases(data, role)
+        import inline
+        inlined = inline.inline_new_helpers(data, canon.reference_fn_paths(role)) if role in ('lib', 'bin') else {}
         out[role] = Crate(data, f)
+        out[role].inlined_helpers = inlined
         out[role].field_aliases = aliases
         out[role].fn_aliases = fn_aliases
         out[role].type_aliases = ty_aliases
